@@ -162,7 +162,7 @@ pub fn adjust(cfg: &mut SwarmCfg, tier: &str, r: &mut Prng) {
         }
         "C07" => {
             cfg.oracles = sv(&["agreement", "joiner", "tree-valid"]);
-            cfg.faults = sv(&["J-NOT-ADDRESSED", "J-WRONG-TREE", "J-STALE-GROUP-INFO", "N-RACE", "N-REORD"]);
+            cfg.faults = sv(&["J-NOT-ADDRESSED", "J-WRONG-TREE", "J-STALE-GROUP-INFO", "N-RACE", "N-REORD", "S-KP-DELETE-ERR"]);
             cfg.knobs.push(("observe-every".into(), 6));
             cfg.knobs.push(("psk".into(), 1));
             setw(cfg, "commit", 18);
@@ -281,6 +281,10 @@ pub fn adjust(cfg: &mut SwarmCfg, tier: &str, r: &mut Prng) {
             cfg.storage = *r.pick(&[StorageKind::Mem, StorageKind::Sql, StorageKind::Mirror, StorageKind::Mirror]);
             cfg.n_parties = cfg.n_parties.min(7);
             cfg.knobs.push(("twins".into(), r.range(1, 3)));
+            if r.chance(1, 4) {
+                // a re-initialised group is stored and restored like any other
+                cfg.knobs.push(("reinit".into(), 1));
+            }
             if r.chance(1, 3) {
                 cfg.scenario = "two-groups".into();
                 cfg.knobs.push(("groups".into(), 2));
@@ -490,7 +494,7 @@ pub fn extra_action(w: &mut World, kind: &str) -> Option<Action> {
             Some(Action::Special {
                 kind: "forge".into(),
                 a: p as u64,
-                b: if w.cfg.knob("templates").is_some() { w.prng.below(13) } else { w.prng.below(10) },
+                b: if w.cfg.knob("templates").is_some() { w.prng.below(15) } else { w.prng.below(12) },
                 c: w.prng.below(8),
             })
         }
@@ -637,7 +641,7 @@ pub fn adjust_commit(w: &mut World, _p: usize, _g: usize, spec: &mut CommitSpec)
     if w.cfg.knob("templates").is_some() && w.prng.chance(1, 5) {
         // (two by-value PSK proposals for the same external id get different nonces, hence different
         // PreSharedKeyIDs: that is valid, so it is not a template; the forger covers the identical-id case)
-        let t = *w.prng.pick(&[1u8, 2, 4, 5, 8, 9]);
+        let t = *w.prng.pick(&[1u8, 2, 4, 5, 8, 9, 10, 11]);
         let q = if t == 8 { w.parties.len() - 1 } else { w.prng.usize_below(w.parties.len()) };
         spec.templates.push((t, q));
     }
@@ -727,8 +731,9 @@ pub fn prop_spec_override(
         }
     }
     if w.cfg.knob("templates").is_some() && w.prng.chance(1, 6) {
-        let t = *w.prng.pick(&[8u8, 4]);
-        return Some(PropSpec::Template { t, q: w.parties.len() - 1 });
+        let t = *w.prng.pick(&[8u8, 4, 10, 11]);
+        let q = if t == 8 { w.parties.len() - 1 } else { w.prng.usize_below(w.parties.len()) };
+        return Some(PropSpec::Template { t, q });
     }
     if w.cfg.knob("psk") == Some(2) && w.prng.chance(1, 3) {
         return Some(if w.prng.chance(1, 2) {
